@@ -162,7 +162,8 @@ Definition attach (s : site) (h : heap) (p c : id) (idx : nat) : heap :=
 (* ---- detach sites ------------------------------------------------------------------------ *)
 Inductive dsite :=
 | DSheetDelete    (* cssstylesheet.py deleteRule l.500-501: rule._parentStyleSheet = None; del _cssRules[i] *)
-| DContDelete.    (* cssrule.py deleteRule l.216-221: _cssRules[i]._parentRule = None; ._parent = None; del _cssRules[i] *)
+| DContDelete.    (* cssrule.py deleteRule: _cssRules[i]._parentRule = None; ._parent = None; del _cssRules[i];
+                     _setCssRules: the same writes on every rule of the replaced list *)
 Definition dsite_role d := match d with DSheetDelete => RTop | DContDelete => RSub end.
 Definition dsite_writes d := match d with DSheetDelete => set_pss None | DContDelete => fun o => set_par None (set_pr None o) end.
 
@@ -182,7 +183,8 @@ Definition detach (d : dsite) (h : heap) (p : id) (i : nat) : heap :=
   end.
 (* an element leaves its container without any attribute write: _setSeq(newseq) (declaration cssText,
    removeProperty, PropertyValue / Value cssText), self.seq = newseq (SelectorList), appendSelector's
-   duplicate removal, self.cssRules = CSSRuleList() in the cssText setters of @media / @page       *)
+   duplicate removal, the rules of a sheet replaced by its cssText / cssRules setters (rules replaced in
+   an @media / @page are detached: detach_all below)                                                *)
 Definition drop (r : role) (h : heap) (p : id) (i : nat) : heap :=
   match get h p with
   | Some op => match del r i (kids op) with Some (_, rest) => upd h p (set_kids rest) | None => h end
@@ -226,8 +228,13 @@ Definition start : heap := [].
 (* named composites used by the code (documentation of the sites; all are sequences of steps) *)
 Definition sheet_set_cssRules (h : heap) (p : id) (l : list id) : heap :=     (* cssstylesheet.py l.122-131 *)
   fold_left (fun h c => attach SSheetInsert h p c (length h)) l h.
-Definition container_set_cssRules (h : heap) (p : id) (l : list id) : heap := (* cssrule.py l.168-178 *)
-  fold_left (fun h c => attach SContInsert h p c (length h)) l h.
+(* cssrule.py _setCssRules: the rules of the replaced list are detached (as by deleteRule), the rules of
+   the new list are attached (as by _finishInsertRule) *)
+Fixpoint detach_all (n : nat) (d : dsite) (h : heap) (p : id) : heap :=
+  match n with O => h | S m => detach_all m d (detach d h p 0) p end.
+Definition container_set_cssRules (h : heap) (p : id) (l : list id) : heap :=
+  let n := match get h p with Some op => length (kids op) | None => 0 end in
+  fold_left (fun h c => attach SContInsert h p c (length h)) l (detach_all n DContDelete h p).
 (* Property.__init__: the property and its PropertyValue (property.py l.74-79) *)
 Definition property_ctor (h : heap) (par : option id) : heap :=
   let p := length h in
